@@ -42,6 +42,12 @@ type Conn = (FrameReader<simkernel::tokio_net::tcp::OwnedReadHalf>, simkernel::t
 
 /// The scripted node (async twin of `fleet_blocking::run_node`).
 pub async fn run_node(listener: TcpListener, seq: Vec<Outcome>, log: Arc<std::sync::Mutex<NodeLog>>, stop: Arc<AtomicBool>) {
+    run_node_opts(listener, seq, log, stop, false).await
+}
+
+/// `silent_mutes_conn`: after a Silent outcome the connection stays open but is never
+/// answered again (a black-holed connection); fresh connections are served normally.
+pub async fn run_node_opts(listener: TcpListener, seq: Vec<Outcome>, log: Arc<std::sync::Mutex<NodeLog>>, stop: Arc<AtomicBool>, silent_mutes_conn: bool) {
     let addr = listener.local_addr().unwrap();
     let mut i = 0usize;
     let mut conn: Option<Conn> = None;
@@ -127,6 +133,29 @@ pub async fn run_node(listener: TcpListener, seq: Vec<Outcome>, log: Arc<std::sy
             }
             Outcome::Silent => {
                 simkernel::count("fault.silent_until_timeout");
+                if silent_mutes_conn {
+                    simkernel::count("fault.connection_black_holed");
+                    let (mut dead_fr, dead_wr, _c) = conn.take().unwrap();
+                    let (log2, stop2, ser) = (log.clone(), stop.clone(), serial);
+                    tokio::spawn(async move {
+                        let _keep_open = dead_wr;
+                        loop {
+                            if stop2.load(Ordering::SeqCst) {
+                                return;
+                            }
+                            match timeout(Duration::from_millis(500), dead_fr.next()).await {
+                                Err(_) => continue,
+                                Ok(Ok(Some(f))) => {
+                                    let tag = call_tag(&f.query_str());
+                                    let mut l = log2.lock().unwrap();
+                                    l.requests.push((tag.clone(), ser));
+                                    l.events.push(format!("request {tag} on #{ser}: Muted"));
+                                }
+                                _ => return,
+                            }
+                        }
+                    });
+                }
             }
             Outcome::Malformed => {
                 simkernel::count("fault.malformed_reply");
@@ -182,15 +211,16 @@ fn c19_async_fleet_seq(case: &Case) {
     let timeout_ms = pick(&[20u64, 100, 400]);
     let delay_ms = pick(&[1u64, 10, 50]);
     let ncalls = range(1, 3);
+    let silent_mutes_conn = simkernel::choose(2) == 0;
     case.sample(json!({"max_attempts": max_attempts, "outcomes": seq.iter().map(|o| format!("{o:?}")).collect::<Vec<_>>(),
-        "timeout_ms": timeout_ms, "retry_delay_ms": delay_ms, "scripted_calls": ncalls}));
+        "timeout_ms": timeout_ms, "retry_delay_ms": delay_ms, "scripted_calls": ncalls, "silent_connection_stays_dead": silent_mutes_conn}));
     let case = case.clone();
     aio::run(&case.clone(), 3_600, async move {
         let listener = TcpListener::bind("127.0.0.1:0").await.unwrap();
         let addr = listener.local_addr().unwrap();
         let log = Arc::new(std::sync::Mutex::new(NodeLog::default()));
         let stop = Arc::new(AtomicBool::new(false));
-        let node = tokio::spawn(run_node(listener, seq.clone(), log.clone(), stop.clone()));
+        let node = tokio::spawn(run_node_opts(listener, seq.clone(), log.clone(), stop.clone(), silent_mutes_conn));
         let cfg = NodeConfig::new("127.0.0.1", addr.port())
             .unwrap()
             .with_name("n1")
